@@ -55,6 +55,24 @@ def gen_classes(rng):
             rows.append(dict(id=i, name="C%d" % i, bases=bases, falsy=rng.random() < 0.25, oddmod=odd,
                              unhashable=rng.random() < 0.15))  # e.g. a plain @dataclass exception: defines __eq__, hence no __hash__
             break
+    diamond = None
+    gen_now = [c for c in pyc if c < 100]
+    if len(gen_now) >= 2 and rng.random() < 0.4:
+        # multiple inheritance from two generated classes that both (will) have an extractor of their own: the extractor of a
+        # failed action is the one of the NEAREST class in the exception's MRO, whatever the registration order and however
+        # deep the other branch is
+        for _ in range(10):
+            b0, b1 = rng.sample(gen_now, 2)
+            try:
+                k = type("C%d" % n, (pyc[b0], pyc[b1]), {"__module__": "vmod"})
+            except TypeError:
+                continue
+            pyc[n] = k
+            ids[k] = n
+            rows.append(dict(id=n, name="C%d" % n, bases=[b0, b1], falsy=False, oddmod=False, unhashable=False))
+            diamond = (n, b0, b1)
+            break
+    gen_classes.diamond = diamond
     table = []
     for cid, k in sorted(pyc.items()):
         mro = [ids[c] for c in k.__mro__ if c in ids]
@@ -108,6 +126,16 @@ def gen_env(rng, prof):
                 # an extractor whose result happens to use key names eliot sets itself afterwards
                 fields.append([rng.choice(["reason", "exception", "traceback"]), {"s": "from-extractor"}])
             extractors.append(dict(cls=c, fields=fields, failAt=fail))
+    dia = getattr(gen_classes, "diamond", None)
+    if dia is not None and prof["p_extractor"] > 0:
+        d, b0, b1 = dia
+        for b in (b0, b1):
+            if not any(e["cls"] == b for e in extractors):
+                extractors.append(dict(cls=b, fields=[["ex%d" % b, {"n": b}]], failAt=[]))
+        if not issubclass(pyc[d], BaseExceptionGroup):
+            excs[0] = dict(id=0, cls=d, str="exc0", str_base=False)
+    # the order in which the application registered its extractors is not the order of any MRO
+    rng.shuffle(extractors)
     ser_fail = [[k, rng.randint(8, 11)] for k in range(12) if rng.random() < prof["p_ser_fail"]]
     dest_fail = []
     for d in range(4):
